@@ -143,12 +143,26 @@ func runC05(c *Ctx, phase string) {
 	}
 	// hostile unknown ids: stems U that are on no list although U-or-later / U-only is. They are unknown ids
 	// (kind UNK) like any other and must be rejected wherever they stand.
-	for i, st := range u.UnlistedStems {
+	hostile := append([]string{}, u.UnlistedStems...)
+	nStems := len(hostile)
+	// listed ids re-spelled with characters that Unicode case folding (not ASCII case folding) equates with ASCII letters:
+	// U+017F LATIN SMALL LETTER LONG S ~ s, U+212A KELVIN SIGN ~ k. They are not id characters at all.
+	fold := strings.NewReplacer("s", "\u017f", "S", "\u017f", "k", "\u212a", "K", "\u212a")
+	for i, id := range append(append([]string{}, u.AllLicense...), u.Exceptions...) {
+		if tw := fold.Replace(id); tw != id && i%7 == 0 {
+			hostile = append(hostile, tw)
+		}
+	}
+	for i, st := range hostile {
 		if !c.Mine(i) {
 			continue
 		}
 		r := gen.NewRand(c.Seed, 0xC057, uint64(i))
-		for _, v := range []string{st, strings.ToLower(st), strings.ToUpper(st)} {
+		variants := []string{st, strings.ToLower(st), strings.ToUpper(st)}
+		if i >= nStems {
+			variants = []string{st}
+		}
+		for _, v := range variants {
 			for _, seq := range [][]int{{gen.KUnk}, {gen.KUnk, gen.KPlus}, {gen.KUnk, gen.KWith, gen.KExc}, {gen.KUnk, gen.KPlus, gen.KWith, gen.KExc},
 				{gen.KAct, gen.KAnd, gen.KUnk, gen.KPlus}, {gen.KLP, gen.KUnk, gen.KPlus, gen.KRP}, {gen.KUnk, gen.KPlus, gen.KOr, gen.KAct}, {gen.KAct, gen.KWith, gen.KUnk}} {
 				lex := make([]string, len(seq))
